@@ -35,6 +35,10 @@ EXPLANATION = ('PARTIAL. Statement level (added): c36_stmt_exact / c36_body_exac
                'returns CPython\'s value; the emitted CFG is represented unfolded along forward edges (Model/StmtCode.v) and '
                'executed with IRSem arithmetic but NOT with IRSem.run_function on numbered blocks/byte memory; the model CFG is '
                'compared structurally with the decompiled python_to_ir output on generated functions every run. '
+               'Augmented assignment is covered for every operator the lowering accepts (x op= e is lowered as x op e); while-else / '
+               'for-else are rejected by the front-end with a diagnostic and are not in the statement AST; function calls are NOT in '
+               'the statement theorem (differential execution only). True division a / b on ints is part of the expression language '
+               '(no integer value; rejected by the lowering once the front-end diagnoses it: c36_int_truediv_rejected). '
                'Expression level: theorems (unbounded in values) cover: lowering of integer expressions over + - * // '
                '(as the current table/sequence lowers them), comparisons and short-circuit and/or, and the block skeleton '
                'of for-range loops with abstract bodies. NOT proved: block numbering, Alloc/Load/Store through byte memory, phi '
@@ -51,9 +55,9 @@ ASSUMPTIONS = ['all intermediate values within signed 64 bits; no division by ze
                'assignment, wherever that is) and return on every path']
 
 SRC = 'ppci/lang/python/python2ir.py'
-PBINS = ['Add', 'Sub', 'Mult', 'FloorDiv', 'Mod', 'LShift', 'RShift', 'BitAnd', 'BitOr', 'BitXor']
+PBINS = ['Add', 'Sub', 'Mult', 'FloorDiv', 'Mod', 'LShift', 'RShift', 'BitAnd', 'BitOr', 'BitXor', 'TrueDiv']
 PBIN_SYM = {'Add': '+', 'Sub': '-', 'Mult': '*', 'FloorDiv': '//', 'Mod': '%', 'LShift': '<<', 'RShift': '>>',
-            'BitAnd': '&', 'BitOr': '|', 'BitXor': '^'}
+            'BitAnd': '&', 'BitOr': '|', 'BitXor': '^', 'TrueDiv': '/'}
 PBIN_COQ = {k: 'P' + k for k in PBINS}
 PCMPS = {'Eq': '==', 'NotEq': '!=', 'Lt': '<', 'LtE': '<=', 'Gt': '>', 'GtE': '>='}
 FLOOR_SEQ = [('/', 'SA', 'SB')]
@@ -141,7 +145,8 @@ def export_tables():
         binops.append((k.__name__, v))
     cmps = export_compare_map(PythonToIrCompiler)
     fd = export_prog(python_to_ir, '//')
-    return {'binops': binops, 'cmps': cmps, 'floordiv': fd or [], 'for': export_for()}
+    truediv_rejected = export_prog(python_to_ir, '/') is None
+    return {'binops': binops, 'cmps': cmps, 'floordiv': fd or [], 'for': export_for(), 'int_truediv_rejected': truediv_rejected}
 
 
 def table_text(t):
@@ -154,10 +159,11 @@ def table_text(t):
             'Definition binop_tab : tab := %s.\n'
             'Definition cmp_tab : tab := %s.\n'
             'Definition floordiv_prog : sprog := %s.\n'
-            'Definition lowcfg_cur : lowcfg := mk_lowcfg binop_tab cmp_tab floordiv_prog.\n'
+            'Definition lowcfg_cur : lowcfg := mk_lowcfg binop_tab cmp_tab floordiv_prog %s.\n'
             'Definition for_variant_cur : variant := %s.\n'
             'Definition for_loopvar_cur : loopvar := %s.\n'
-            % (SRC, tab(t['binops']), tab(t['cmps']), prog, t['for']['variant'], t['for']['loopvar']))
+            % (SRC, tab(t['binops']), tab(t['cmps']), prog, 'true' if t['int_truediv_rejected'] else 'false',
+               t['for']['variant'], t['for']['loopvar']))
 
 
 def regen(ctx):
@@ -170,7 +176,7 @@ def regen(ctx):
     changed = ctx.write_gen('Tab_py2ir', table_text(t))
     ctx.cov['stages']['gen_Tab_py2ir'] = {'file': SRC, 'changed_on_disk': changed, 'binop_map': t['binops'],
                                           'compare_map': t['cmps'], 'floordiv_prog': t['floordiv'],
-                                          'for_skeleton': t['for']}
+                                          'for_skeleton': t['for'], 'int_truediv_rejected': t['int_truediv_rejected']}
     return t
 
 
@@ -789,7 +795,13 @@ WITNESSES = [
     {'id': 'for-nested-for', 'src': 'def f(a: int, b: int) -> int:\n    s = 0\n    for i in range(a):\n'
                                     '        for j in range(b):\n            s = s + i * j\n    return s\n', 'args': [5, 2]},
     {'id': 'for-var-after', 'src': SK_AFTER, 'args': [5, 0]},
-    {'id': 'int-true-division', 'src': 'def f(a: int, b: int) -> int:\n    return a / b\n', 'args': [7, 2]},
+    # `/` on ints has no int result: the repaired front-end rejects it (diagnostic = pass), the source as found returns 3
+    {'id': 'int-true-division', 'src': 'def f(a: int, b: int) -> int:\n    return a / b\n', 'args': [7, 2], 'diag_ok': True},
+    {'id': 'int-true-division-aug', 'src': 'def f(a: int, b: int) -> int:\n    a /= b\n    return a\n', 'args': [7, 2],
+     'diag_ok': True},
+    # an operator the front-end does not support must be a diagnostic, not an internal error
+    {'id': 'augassign-unsupported-op', 'src': 'def f(a: int, b: int) -> int:\n    a %= b\n    return a\n', 'args': [7, 2],
+     'diag_ok': True},
 ]
 
 
@@ -855,6 +867,9 @@ def run(ctx):
     wres = {}
     for w in WITNESSES:
         exp, act = run_witness(w)
+        if w.get('diag_ok') and act == 'diag':
+            wres[w['id']] = 'rejected with a diagnostic'
+            continue
         wres[w['id']] = 'fails' if exp != act else 'passes'
         if exp != act:
             ctx.violation({'fn': 'python_to_ir', 'witness': w['id'], 'key': 'witness-' + w['id'], 'src': w['src'],
